@@ -15,6 +15,7 @@ ALPHA = "ACGTUVWXYZ"
 def fresh_env(overrides=None):
     shims = env.standard_shims()
     ld = loader.Loader(shims, repo=REPO, overrides=overrides)
+    core.DEFAULT_RESET[0] = ld.restore         # every explore() of this process resets the loaded modules' containers between paths
     return ld, shims
 
 
